@@ -62,6 +62,7 @@ type cellCase struct {
 	NearEqual            bool // sibling whose parameters differ from its twin's by a few parts in 10^9
 	WidestFirst          bool // cell 0 has the widest state vector (what InitialiseStates supports)
 	TinyInputs           bool // zeros replaced by -0, denormals and tiny positive values
+	MissingData          bool // one input series is NaN from some timestep on (stateless scalar models only)
 	ForeignX4            bool // GR4J states produced under another X4 (store lengths differ from the parameter's)
 	own                  []int
 	cols                 [][]float64
@@ -118,6 +119,22 @@ func drawCellCase(w *simrt.Tape, maxCells, maxT int) *cellCase {
 			c.TinyInputs = true
 		}
 		c.inBlocks = append(c.inBlocks, blk)
+	}
+	if len(c.desc.States) == 0 && c.MaxDim == 0 && len(c.desc.Inputs) > 0 && c.T > 0 && w.Choose(10) == 9 {
+		// missing data: one forcing series is NaN from some timestep to the end (a gauge that stopped
+		// reporting), in every input block or in the first only.  Only for models without states and
+		// tables, whose kernels are straight arithmetic: there a NaN can do nothing but propagate
+		// (iterative solvers and table look-ups may legitimately refuse one).  Several cells then end
+		// in NaN, which is as valid a result as any and must be the same bits on every schedule
+		x, from, all := w.Choose(len(c.desc.Inputs)), w.Choose(c.T), w.Bool(60)
+		for b, blk := range c.inBlocks {
+			if all || b == 0 {
+				for t := from; t < len(blk[x]); t++ {
+					blk[x][t] = math.NaN()
+				}
+			}
+		}
+		c.MissingData = true
 	}
 	for i := 0; i < c.N; i++ {
 		col := c.cols[i%c.P]
@@ -422,6 +439,9 @@ func engineCells(rc *RunCtx) *Outcome {
 	}
 	if c.Snapped {
 		o.probe("inputs_exactly_on_knots_or_thresholds")
+	}
+	if c.MissingData {
+		o.probe("forcing_series_ends_in_missing_data(NaN)")
 	}
 	if c.Mixed {
 		o.probe("cells_with_different_state_widths(zero_padded_rows)")
